@@ -1,0 +1,40 @@
+//go:build verif
+// +build verif
+
+package hsms
+
+// Verification hooks (build tag "verif" only): a logical step counter of one
+// Parse call. Every call of parseMessageText consumes at least a format byte
+// and a length byte or fails, so on a terminating decoder the number of calls
+// is at most len(input)/2+1; a count above len(input)+2 is a deterministic
+// witness of a loop that is not consuming input. Not part of the public API.
+
+type verifCounters struct {
+	items    int64 // parseMessageText invocations
+	exceeded bool
+}
+
+// VerifBudgetExceeded is the panic value raised when the step budget is exceeded.
+type VerifBudgetExceeded struct {
+	Count    int64
+	Budget   int64
+	InputLen int
+}
+
+// VerifHook, when set (before any Parse call starts), is called at the end of
+// every Parse call with that call's step count.
+var VerifHook func(inputLen int, items int64, exceeded bool)
+
+func verifItem(p *parser) {
+	p.verif.items++
+	if b := int64(len(p.input)) + 2; p.verif.items > b {
+		p.verif.exceeded = true
+		panic(VerifBudgetExceeded{p.verif.items, b, len(p.input)})
+	}
+}
+
+func verifDone(p *parser) {
+	if VerifHook != nil {
+		VerifHook(len(p.input), p.verif.items, p.verif.exceeded)
+	}
+}
